@@ -194,7 +194,7 @@ func run(p *rules.Property, repo, verif, tier, goos, goarch string, seed int) (c
 		}
 	}
 	r.Extra["build_variants"] = variants
-	if tier == "thorough" && os.Getenv("CONDUITLINT_MUTATE") != "0" {
+	if tier == "thorough" && os.Getenv("CONDUITLINT_MUTATE") == "1" {
 		if self, err := os.Executable(); err == nil {
 			r.Extra["mutation_self_test"] = mutationSelfTest(self, repo, verif, p.ID, r.Obs, seed)
 		}
